@@ -335,8 +335,13 @@ func (p *Prog) FollowedBy(fn *Func, w ast.Node, isB func(n ast.Node) bool) (ast.
 		}
 		switch x := parent.(type) {
 		case *ast.BlockStmt:
-			if n, why, done := p.scanAfter(x.List, cur, isB); done {
-				return n, why
+			// the body of a switch / select lists alternatives, not successors
+			switch p.Parent(x).(type) {
+			case *ast.SwitchStmt, *ast.TypeSwitchStmt, *ast.SelectStmt:
+			default:
+				if n, why, done := p.scanAfter(x.List, cur, isB); done {
+					return n, why
+				}
 			}
 		case *ast.CaseClause:
 			if n, why, done := p.scanAfter(x.Body, cur, isB); done {
@@ -457,6 +462,29 @@ func (p *Prog) stmtIsB(s ast.Stmt, isB func(n ast.Node) bool) ast.Node {
 			if a != nil && b != nil {
 				return a
 			}
+		}
+	case *ast.SwitchStmt:
+		// every clause, including a default, performs B
+		var first ast.Node
+		hasDefault := false
+		for _, cl := range x.Body.List {
+			cc, ok := cl.(*ast.CaseClause)
+			if !ok {
+				return nil
+			}
+			if cc.List == nil {
+				hasDefault = true
+			}
+			n := p.stmtIsB(&ast.BlockStmt{List: cc.Body, Lbrace: cc.Pos()}, isB)
+			if n == nil {
+				return nil
+			}
+			if first == nil {
+				first = n
+			}
+		}
+		if hasDefault {
+			return first
 		}
 	}
 	return nil
